@@ -1,5 +1,6 @@
 /* C01-C04 harness: qtreetbl. One op per line; prints "<observation> | <structure>".
    Caller buffers are exact-size heap blocks, scribbled and freed right after each call. */
+#include <limits.h>
 #include "common.h"
 #include "qlibc.h"
 
@@ -26,6 +27,10 @@ static int ci_cmp(const void *a, size_t la, const void *b, size_t lb) {
     }
     return la == lb ? 0 : (la < lb ? -1 : 1);
 }
+/* valid orderings whose results are not -1/0/+1: multiples of 65536 (zero in the low 16 bits) and the two extreme ints
+   (INT_MIN cannot be negated); only the sign of a comparator's result means anything */
+static int big_cmp(const void *a, size_t la, const void *b, size_t lb) { int r = qtreetbl_byte_cmp(a, la, b, lb); return r < 0 ? -65536 * 3 : r > 0 ? 65536 * 5 : 0; }
+static int ext_cmp(const void *a, size_t la, const void *b, size_t lb) { int r = qtreetbl_byte_cmp(a, la, b, lb); return r < 0 ? INT_MIN : r > 0 ? INT_MAX : 0; }
 static int counting_cmp(const void *a, size_t la, const void *b, size_t lb) { ncmp_calls++; return base_cmp(a, la, b, lb); }
 
 static void *dupbuf(const unsigned char *p, size_t n) { unsigned char *q = malloc(n ? n : 1); memcpy(q, p, n); return q; }
@@ -68,7 +73,7 @@ int main(void) {
         char op[32]; a1[0] = a2[0] = 0;
         sscanf(line, "%31s %s %s", op, a1, a2);
         if (!strcmp(op, "cmp") || !strcmp(op, "new")) {
-            if (!strcmp(op, "cmp")) base_cmp = !strcmp(a1, "rev") ? rev_cmp : !strcmp(a1, "len") ? len_cmp : !strcmp(a1, "ci") ? ci_cmp : !strcmp(a1, "errno") ? errno_cmp : qtreetbl_byte_cmp;
+            if (!strcmp(op, "cmp")) base_cmp = !strcmp(a1, "rev") ? rev_cmp : !strcmp(a1, "len") ? len_cmp : !strcmp(a1, "ci") ? ci_cmp : !strcmp(a1, "errno") ? errno_cmp : !strcmp(a1, "big") ? big_cmp : !strcmp(a1, "ext") ? ext_cmp : qtreetbl_byte_cmp;
             if (t && !dead) t->free(t);
             if (!strcmp(op, "cmp")) use_default = !strcmp(a1, "default");
             t = qtreetbl((++ntab & 1) ? 0 : QTREETBL_THREADSAFE); if (!use_default) qtreetbl_set_compare(t, counting_cmp);   /* "default": the table as the constructor leaves it, no comparator installed by the caller */
